@@ -189,3 +189,56 @@ Proof.
   { induction s as [|u s IH]; intros c H; [exact H|]. rewrite exec_cons. apply IH, step_cur_le_calls, H. }
   apply G. cbn [init c_sh s_cur s_calls]. lia.
 Qed.
+
+(** ** the ghost counter [s_calls] of the model is the number of source labels of the label stream -- the
+    stream that the correspondence check compares with the crate's, call by call *)
+Definition lbl_is_src (l : label) : bool := match l with LSrc _ _ | LSrcPanic _ => true | _ => false end.
+Fixpoint n_src (ls : list label) : N :=
+  match ls with [] => 0 | l :: tl => (if lbl_is_src l then 1 else 0) + n_src tl end.
+
+Lemma step_calls_count e c u :
+  s_calls (c_sh c) = n_src (c_labels c) -> s_calls (c_sh (step e c u)) = n_src (c_labels (step e c u)).
+Proof.
+  intros H. unfold step.
+  repeat first
+    [ solve [exact H]
+    | solve [cbn [commit c_sh c_labels s_calls with_c with_y with_f with_src n_src lbl_is_src]; lia]
+    | progress unfold finish, call
+    | match goal with |- context [match ?x with _ => _ end] => destruct x eqn:? end ].
+Qed.
+
+Theorem calls_are_the_source_labels : forall e progs sched,
+  s_calls (c_sh (exec e (init progs) sched)) = n_src (c_labels (exec e (init progs) sched)).
+Proof.
+  intros e progs sched.
+  assert (G : forall s c, s_calls (c_sh c) = n_src (c_labels c) ->
+                          s_calls (c_sh (exec e c s)) = n_src (c_labels (exec e c s))).
+  { induction s as [|u s IH]; intros c H; [exact H|]. rewrite exec_cons. apply IH, step_calls_count, H. }
+  apply G. reflexivity.
+Qed.
+
+(** likewise the source cursor [s_cur] is the number of labels at which the wrapped iterator yielded an element *)
+Definition lbl_yields (l : label) : bool := match l with LSrc _ (Some _) => true | _ => false end.
+Fixpoint n_yield (ls : list label) : N :=
+  match ls with [] => 0 | l :: tl => (if lbl_yields l then 1 else 0) + n_yield tl end.
+
+Lemma step_cur_count e c u :
+  s_cur (c_sh c) = n_yield (c_labels c) -> s_cur (c_sh (step e c u)) = n_yield (c_labels (step e c u)).
+Proof.
+  intros H. unfold step.
+  repeat first
+    [ solve [exact H]
+    | solve [cbn [commit c_sh c_labels s_cur with_c with_y with_f with_src n_yield lbl_yields]; lia]
+    | progress unfold finish, call
+    | match goal with |- context [match ?x with _ => _ end] => destruct x eqn:? end ].
+Qed.
+
+Theorem cursor_is_the_yielding_labels : forall e progs sched,
+  s_cur (c_sh (exec e (init progs) sched)) = n_yield (c_labels (exec e (init progs) sched)).
+Proof.
+  intros e progs sched.
+  assert (G : forall s c, s_cur (c_sh c) = n_yield (c_labels c) ->
+                          s_cur (c_sh (exec e c s)) = n_yield (c_labels (exec e c s))).
+  { induction s as [|u s IH]; intros c H; [exact H|]. rewrite exec_cons. apply IH, step_cur_count, H. }
+  apply G. reflexivity.
+Qed.
